@@ -97,6 +97,7 @@ struct ArraySys {
             {"A.Drop(Size+1)", 0}, {"A.Sort asc", 0}, {"A.Sort desc", 0},   {"A.Swap(first,last)", 0}, {"A.Detach+free", 0},
             {"A=Array(n)", 2},  {"A=Array(n,init)", 2}, {"*A.Last()=9", 0},
             {"A+=own first item (const&)", 0}, {"A.Insert(own last item const&)", 0},
+            {"A+=move(A)", 0}, {"A.Insert(move(A))", 0},
         };
         return o;
     }
@@ -189,6 +190,15 @@ struct ArraySys {
             mb.clear();
         } else if (n == "A+=A") {
             a += a;
+            std::vector<int> c = ma;
+            ma.insert(ma.end(), c.begin(), c.end());
+        } else if (n == "A+=move(A)" || n == "A.Insert(move(A))") {
+            // appending the array to itself by move: nothing can be taken over, the result is the doubled sequence
+            if (n == "A+=move(A)") {
+                a += std::move(a);
+            } else {
+                a.Insert(std::move(a));
+            }
             std::vector<int> c = ma;
             ma.insert(ma.end(), c.begin(), c.end());
         } else if (n == "A=B") {
